@@ -239,6 +239,28 @@ var scenarios = []scenario{
 		}
 		// the same for a directory-sized object is covered by the enumeration scenarios
 	}},
+	{"create reusing the number of a file that is still being freed", func(s *seqRun) {
+		// REMOVE of a 1400-block file returns while the shrinker still frees it (three transactions);
+		// the inode allocator is pointed at its number, so the next creations take the path of
+		// getAlloc that aborts, helps freeing, and starts over — with everything re-checked
+		for round := 0; round < 3; round++ {
+			f := s.mk("create", s.root(), "huge")
+			if f == nil {
+				return
+			}
+			for b := uint64(0); b < 1400; b += 100 {
+				s.opWrite(f, b*4096, 100*4096, 0, pat(byte(0xc0+round), 100*4096))
+			}
+			inum := inumOf(f)
+			s.opRemove("remove", s.root(), "huge")
+			s.pokeInodeAlloc(inum - 1)
+			s.opCreate("create", s.root(), fmt.Sprintf("reuse%d", round), 0, nil)
+			s.opCreate("create", s.root(), fmt.Sprintf("reuse%d", round), 0, nil) // exists now
+			s.opCreate("mkdir", s.root(), fmt.Sprintf("reusedir%d", round), 0, nil)
+			s.opLookup(s.root(), fmt.Sprintf("reuse%d", round))
+			s.opReaddir(s.root(), 0, 0xffffffff)
+		}
+	}},
 	{"directory growing across block boundaries, last slots removed", func(s *seqRun) {
 		// 32 slots per block: the 31st, 63rd and 95th name open a new block; removing the name in
 		// the last slot (and the one before), re-adding, removing everything, removing the directory
